@@ -245,6 +245,28 @@ MANIFEST_TEXT["C05"] = {
     "design_ref": "DESIGN.md section 3 / C05",
 }
 
+PLAN["C10"] = {
+    "pkg": "c10",
+    "tests": [
+        {"name": "TestRejectedResumes", "quick": (8000, 16), "thorough": (480000, 16)},
+    ],
+    "budget": {"quick": 600, "thorough": 5400},
+    "rule": SCENARIO_RULE + "Resumes include deliberately unacceptable types for the current wait (and resumes of completed/failed sessions), "
+            "live and reloaded; with probability 1/4 per waiting step the session is restored against a *mutated* asset document (waiting "
+            "flow deleted, parent flow deleted, waiting node removed, router/wait/timeout stripped, flow type changed, exits rewired). "
+            "Oracle: a Resume that returns an error returns an *engine.Error with one of the three codes, leaves the session JSON "
+            "byte-identical and produces no events/segments/modifiers; otherwise no Go error or panic, a session that turns failed has a "
+            "failure event, and the C01 invariants hold. Non-trivial = a rejection happened or a fault made resumption impossible; "
+            "distinct by (session status, resume type, fault kind, error code, number of runs).",
+    "assumptions": COMMON_ASSUMPTIONS + ["asset faults are applied to the JSON asset document and the session is re-read against it, as a host would after an asset change"],
+}
+MANIFEST_TEXT["C10"] = {
+    "technique": "property-based testing (rapid, stateful) with injected asset faults between sprints: full accept/reject matrix of resume types x wait types x session states, differential on session JSON before/after a rejected resume",
+    "level_text": "Exploration / fault injection by sampling: every rejected resume left the session byte-identical and every impossible resumption ended in a failed session with a failure event, never a Go error.",
+    "level_note": "Fault kinds are the eight listed in scen.FaultKinds; faults are sampled, not enumerated.",
+    "design_ref": "DESIGN.md section 3 / C10",
+}
+
 # every property without a registered check is listed here with the reason (kept current as checks are added)
 NOT_APPLICABLE = [{"property_id": pid, "reason": "check not built yet in this round (planned in DESIGN.md); nothing is claimed for it"}
                   for pid in ALL_IDS if pid not in PLAN]
